@@ -21,6 +21,9 @@ if HERE not in sys.path:
 # =========================================================================================
 
 LAMINAPROP = (142.5e9, 8.7e9, 0.28, 5.1e9, 5.1e9, 5.1e9)
+LAMINAPROP_TWIN = (71.e9, 9.5e9, 0.31, 4.2e9, 4.2e9, 4.2e9)     # the twin object: same lay-up, another material
+_MAT = [LAMINAPROP]
+REDEF = {"redef_preload": "preload", "redef_lam": "lam"}
 ARPACK = {"lb", "freq", "an_lb", "an_freq"}       # results that pass through ARPACK (random start vector)
 NREF = 5                                          # reference runs that define the solver's own spread
 
@@ -47,7 +50,7 @@ def _vec(n, scale=1e-4, phase=0.3):
 
 def _panel(kind, **over):
     from compmech.panel import Panel
-    kw = dict(a=2., b=1., stack=[0, 45, -45, 90], plyt=0.125e-3, laminaprop=LAMINAPROP, mu=1300.,
+    kw = dict(a=2., b=1., stack=[0, 45, -45, 90], plyt=0.125e-3, laminaprop=_MAT[0], mu=1300.,
               m=4, n=5, offset=0.25e-3)
     if kind in ("CPanel", "KPanel"):
         kw["r"] = 10.
@@ -74,11 +77,20 @@ def _panel(kind, **over):
     return p
 
 
-def build(kind):
-    """fresh object of the kind + its context; nothing but definition statements is executed"""
+def build(kind, variant=None):
+    """fresh object of the kind + its context; nothing but definition statements is executed.
+    variant "material": the twin definition (everything alike except the lamina properties)"""
+    _MAT[0] = LAMINAPROP_TWIN if variant == "material" else LAMINAPROP
+    try:
+        return _build(kind)
+    finally:
+        _MAT[0] = LAMINAPROP
+
+
+def _build(kind):
     np = _np()
-    if kind in ("Plate", "CPanel", "KPanel"):
-        p = _panel(kind)
+    if kind in ("Plate", "PlateRedef", "CPanel", "KPanel"):
+        p = _panel("Plate" if kind == "PlateRedef" else kind)
         n = 3 * p.m * p.n
         ctx = Ctx(c=_vec(n), xs=np.linspace(0, p.a, 7), ys=np.linspace(0, p.b, 7) ** 2,
                   Fnxny=None)
@@ -109,7 +121,7 @@ def build(kind):
         spb.b = 0.5
         spb.stack = [0, 90, 90, 0]
         spb.plyt = 1e-3 * 0.125
-        spb.laminaprop = LAMINAPROP
+        spb.laminaprop = _MAT[0]
         spb.mu = 1.3e3
         spb.m = 5
         spb.n = 6
@@ -158,7 +170,8 @@ def build(kind):
         cc.nx = 16
         cc.nt = 20
         cc.name = "Z33"
-        cc.laminaprop = (123.55e3, 8.708e3, 0.319, 5.695e3, 5.695e3, 5.695e3)
+        cc.laminaprop = (123.55e3, 8.708e3, 0.319, 5.695e3, 5.695e3, 5.695e3) if _MAT[0] is LAMINAPROP else \
+            (61.e3, 9.5e3, 0.3, 4.2e3, 4.2e3, 4.2e3)
         cc.stack = [0, 0, 19, -19, 37, -37, 45, -45, 51, -51]
         cc.plyt = 0.125
         cc.r2 = 250.
@@ -198,7 +211,17 @@ def methods(kind):
     """name -> (callable(obj, ctx, arrays) -> result, names of the caller arrays it receives)"""
     np = _np()
     M = {}
-    if kind in ("Plate", "CPanel", "KPanel"):
+    if kind in ("Plate", "PlateRedef", "CPanel", "KPanel"):
+        def redef_preload(o, x, a):
+            o.Nxx_cte = 250.
+
+        def redef_lam(o, x, a):
+            o.plyt = 0.15e-3
+            o.laminaprop = LAMINAPROP_TWIN
+
+        if kind == "PlateRedef":
+            M["redef_preload"] = (redef_preload, ())
+            M["redef_lam"] = (redef_lam, ())
         M["calc_k0"] = (lambda o, x, a: o.calc_k0(silent=True), ())
         M["calc_kG0"] = (lambda o, x, a: o.calc_kG0(silent=True), ())
         M["calc_kM"] = (lambda o, x, a: o.calc_kM(silent=True), ())
@@ -238,6 +261,8 @@ def methods(kind):
         M["strain"] = (lambda o, x, a: o.strain(a["c"], "skin", gridx=5, gridy=4), ("c",))
         M["stress"] = (lambda o, x, a: o.stress(a["c"], "skin", gridx=5, gridy=4), ("c",))
         M["plot"] = (lambda o, x, a: _plot_result(o.plot(a["c"], "skin", save=False, gridx=5, gridy=4)), ("c",))
+        M["p1_lb_dense"] = (lambda o, x, a: (o.panels[0].lb(silent=True, sparse_solver=False), o.panels[0].eigvals,
+                                             o.panels[0].eigvecs)[1:], ())
         return M
     if kind.startswith("Bay"):
         import compmech.analysis as an
@@ -494,9 +519,9 @@ def attr_digest(obj, role, name):
 class Lab:
     """one object of a kind with the bookkeeping needed to call its methods observably"""
 
-    def __init__(self, kind, record=False):
+    def __init__(self, kind, record=False, variant=None):
         self.kind = kind
-        self.obj, self.ctx = build(kind)
+        self.obj, self.ctx = build(kind, variant)
         self.meth = methods(kind)
         self.record = record
         if record:
@@ -637,44 +662,55 @@ def _mutate(name):
 def worker_lifecycle(job, f):
     kind = job["kind"]
     refs = dict(job.get("refvals") or {})
-    for m, path in sorted(job["refs"].items()):
-        if m in refs:
+    for key, path in sorted(job["refs"].items()):
+        if key in refs:
             continue
-        # reference = the call on a freshly defined object; where that cannot succeed today, the call after the
+        m, tags = key.split("|")
+        pre = [q for q in path if q in REDEF]
+        # reference = the call on a freshly (re)defined object; where that cannot succeed today, the call after the
         # shortest sequence the specification says makes it succeed; last resort: after calc_k0 (the suite's order)
         cands = [list(path)] if path else []
-        for alt in ([m], ["calc_k0", m]):
+        for alt in (pre + [m], pre + ["calc_k0", m]):
             if alt not in cands and all(q in Lab.table(kind) for q in alt):
                 cands.append(alt)
         r = None
         for cand in cands:
-            _emit(f, dict(t="refcall", m=m, path=cand))
+            _emit(f, dict(t="refcall", m=key, path=cand))
             lab = Lab(kind, record=False)
             for q in cand:
                 r = lab.call(q)
             if r["out"] == "ok":
                 path = cand
                 break
-        refs[m] = dict(out=r["out"], h=r["h"], eig=r["eig"], etype=r["etype"], emsg=r["emsg"], eigs=[], path=path)
+        refs[key] = dict(out=r["out"], h=r["h"], eig=r["eig"], etype=r["etype"], emsg=r["emsg"], eigs=[], path=path)
         if m in ARPACK and r["out"] == "ok":
             # solver precision is what the solver shows for identical definition and history: NREF runs
-            refs[m]["eigs"].append(r["eig"])
+            refs[key]["eigs"].append(r["eig"])
             for _ in range(NREF - 1):
                 lab = Lab(kind, record=False)
                 for q in path:
                     r = lab.call(q)
                 if r["out"] == "ok":
-                    refs[m]["eigs"].append(r["eig"])
-        _emit(f, dict(t="ref", m=m, res=refs[m]))
+                    refs[key]["eigs"].append(r["eig"])
+        _emit(f, dict(t="ref", m=key, res=refs[key]))
     for i, path in job["paths"]:
+        if job.get("twin"):
+            # the same behaviour on a twin definition (other material) earlier in this very process
+            tw = Lab(kind, record=False, variant="material")
+            for m, rep in path:
+                tw.call(m)
         lab = Lab(kind, record=job.get("record", True))
         _emit(f, dict(t="begin", i=i))
         prev = None
+        defn = set()
         for j, (m, rep) in enumerate(path):
             _emit(f, dict(t="call", i=i, j=j, m=m))
             r = lab.call(m)
             r["vals"] = [[ro, nm, attr_digest(lab.obj, ro, nm)] for ro, nm in job.get("attrs", [])]
-            ref = refs.get(m)
+            if m in REDEF:
+                defn.add(REDEF[m])
+            r["refkey"] = ref_key(m, defn)
+            ref = refs.get(r["refkey"]) if m not in REDEF else dict(out="ok", h=r["h"])
             r["rep"] = bool(rep)
             r["eqRef"] = bool(r["out"] == "ok" and ref is not None and ref["out"] == "ok" and r["h"] == ref["h"])
             r["eqPrev"] = bool(rep and prev is not None and prev["out"] == r["out"] and prev["h"] == r["h"])
@@ -780,7 +816,7 @@ def worker_main(jobfile):
 # Part 2: decision procedure
 # =========================================================================================
 
-KINDS = ["Plate", "CPanel", "KPanel", "Assembly", "BayPlain", "BayBeta", "BayB1", "BayB1b", "BayB2", "BayT2",
+KINDS = ["Plate", "PlateRedef", "CPanel", "KPanel", "Assembly", "BayPlain", "BayBeta", "BayB1", "BayB1b", "BayB2", "BayT2",
          "Cyl", "Cone"]
 TOL = 30
 SPREAD_MULT = 32        # ARPACK results: |x - ref| <= 2^-TOL |ref| + SPREAD_MULT * (spread of the NREF reference runs)
@@ -823,7 +859,8 @@ def _run_worker(job, tag, scratch, timeout=1800):
     return recs, finished, (p.stderr or "")[-1500:], p.returncode
 
 
-def replay_paths(kind, paths, refs, build, scratch, tag, mutant=None, record=True, refvals=None, attrs=None):
+def replay_paths(kind, paths, refs, build, scratch, tag, mutant=None, record=True, refvals=None, attrs=None,
+                 twin=False):
     """paths: list of lists of (method, rep).  Runs them in worker processes (restarting after a crash of
     the interpreter, which is recorded as the outcome of the call in progress).
     -> (list of step lists per path, ref results, problems)"""
@@ -840,7 +877,7 @@ def replay_paths(kind, paths, refs, build, scratch, tag, mutant=None, record=Tru
             problems.append("too many worker restarts for kind %s" % kind)
             break
         job = dict(type="lifecycle", kind=kind, refs=refs, refvals=refvals, paths=todo, build=build,
-                   mutant=mutant, record=record, attrs=attrs or [])
+                   mutant=mutant, record=record, attrs=attrs or [], twin=twin)
         recs, finished, err, rc = _run_worker(job, "%s-r%d" % (tag, rounds), scratch)
         cur = None
         incall = None
@@ -872,7 +909,7 @@ def replay_paths(kind, paths, refs, build, scratch, tag, mutant=None, record=Tru
         prev = results[i][-1] if results[i] else None
         rep = bool(paths[i][j][1])
         results[i].append(dict(m=m, out="exc", h="", etype="crash", emsg="worker process died", args_same=True,
-                               eig=None, writes=[], rbw=[], vals=[], rep=rep, eqRef=False,
+                               eig=None, writes=[], rbw=[], vals=[], rep=rep, eqRef=False, refkey="",
                                eqPrev=bool(rep and prev is not None and prev["out"] == "exc" and prev["etype"] == "crash")))
         if not rep and j + 1 < len(paths[i]) and paths[i][j + 1][0] == m and paths[i][j + 1][1]:
             # the repetition of a call that kills the interpreter is not attempted again in a new process
@@ -887,7 +924,8 @@ def _nk(ab, ck):
     d = tuple(sorted(tuple(x) for x in ab[0]))
     st = tuple(sorted(tuple(x) for x in ab[1]))
     k = tuple(sorted((tuple(a), v) for a, v in ck.items())) if isinstance(ck, dict) else ()
-    return (d, st, k)
+    e = tuple(sorted(ab[2])) if len(ab) > 2 else ()
+    return (d, st, k, e)
 
 
 class Graph:
@@ -1005,19 +1043,32 @@ def choose_paths(g, maxlen, budget, rng):
     return paths, stats
 
 
+def ref_key(m, defn):
+    return "%s|%s" % (m, ",".join(sorted(defn)))
+
+
 def ref_paths(g):
-    """for every method the shortest call sequence after which the specification says the call
-    succeeds with the definition-determined result: the reference ("fresh object") computation"""
+    """for every method (and every set of re-definitions reached) the reference computation: the
+    re-definitions applied to a fresh object first, then the shortest call sequence after which the
+    specification says the call succeeds with the definition-determined result"""
     sp = g.shortest()
-    refs = {}
+    base = {}
     for m in g.methods:
         best = None
         for u, path in sp.items():
             e = g.edges.get((u, m))
-            if e is not None and e[1] == "ok":
+            if e is not None and e[1] == "ok" and not u[3] and not any(q in REDEF for q in path):
                 if best is None or (len(path), path) < (len(best), best):
                     best = path
-        refs[m] = (best + [m]) if best is not None else []
+        base[m] = (best + [m]) if best is not None else []
+    inv = {v: k for k, v in REDEF.items()}
+    refs = {}
+    for defn in sorted({u[3] for u in sp}):
+        pre = [inv[t] for t in defn]
+        for m in g.methods:
+            if m in REDEF:
+                continue
+            refs[ref_key(m, defn)] = (pre + base[m]) if (base[m] or not defn) else (pre + [m])
     return refs
 
 
@@ -1043,13 +1094,14 @@ def make_event(eid, kind, mode, steps, keep, refvals=None):
     for r in steps:
         eig = r.get("eig")
         m = r["m"]
-        lists = [e for e in ((refvals or {}).get(m) or {}).get("eigs", []) if _finite(e)]
+        lists = [e for e in ((refvals or {}).get(r.get("refkey") or ref_key(m, ())) or {}).get("eigs", []) if _finite(e)]
         use = _finite(eig) and r["out"] == "ok" and len(lists) >= 2 and all(len(e) == len(eig) for e in lists)
         if use and m not in ev["refs"]:
             ev["refs"][m] = [_dy(e) for e in lists]
         ev["steps"].append(dict(
             m=m, rep=bool(r["rep"]), out=r["out"], etype=r["etype"], emsg=r["emsg"],
             eqRef=bool(r["eqRef"]), eqPrev=bool(r["eqPrev"]), argsSame=bool(r["args_same"]),
+            twinSame=bool(r.get("twinSame", True)),
             rbw=[list(a) for a in r["rbw"] if tuple(a) in keep],
             writes=[list(a) for a in r["writes"]],
             vals=[[ro, nm, bool(fl)] for ro, nm, fl in r.get("valflags", [])],
@@ -1066,11 +1118,12 @@ TOUCH = {
 def _touch_table(kind):
     """method -> (None, caller array names) as the laboratory passes them (static copy of methods(kind),
     kept here so that the parent process does not import compmech)"""
-    cls = "Panel" if kind in ("Plate", "CPanel", "KPanel") else "Assembly" if kind == "Assembly" else \
+    cls = "Panel" if kind in ("Plate", "PlateRedef", "CPanel", "KPanel") else "Assembly" if kind == "Assembly" else \
         "ConeCyl" if kind in ("Cyl", "Cone") else "Bay"
     out = {}
     for m in sorted(TOUCH["c"] | {"calc_k0", "calc_kG0", "calc_kM", "calc_kA", "calc_cA", "calc_fext", "lb", "lb_dense",
                                   "freq", "freq_dense", "static", "static_NL", "get_k0_conn", "get_k0_conn_arg",
+                                  "redef_preload", "redef_lam", "p1_lb_dense",
                                   "an_lb", "an_freq", "an_static"}):
         t = []
         if m in TOUCH["c"]:
@@ -1102,23 +1155,28 @@ def _chunks(lst, k):
     return [lst[i::k] for i in range(k)]
 
 
-def replay_kind(kind, g, paths, build, scratch, nproc, mutant=None, record=True):
-    """-> (list of (path, steps)), refvals, problems"""
+def replay_kind(kind, g, paths, build, scratch, nproc, mutant=None, record=True, twin=False, refvals=None):
+    """-> (list of (path, steps)), refvals, problems.  twin: every path is preceded, in the same process, by the
+    same path on a twin object of another material (reference results are taken over, not recomputed)"""
     import concurrent.futures as cf
     refs = ref_paths(g)
     for (k, m), p in REF_OVERRIDE.items():
         if k == kind and m in g.methods:
-            refs[m] = p
-    # reference results once per kind (one worker), then the paths in parallel chunks
-    _, refvals, problems = replay_paths(kind, [], refs, build, scratch, "%s-ref" % kind, mutant=mutant, record=False)
-    if problems:
-        return [], refvals, problems
+            refs[ref_key(m, ())] = p
+    problems = []
+    if refvals is None:
+        # reference results once per kind (one worker, a process that never sees another definition)
+        _, refvals, problems = replay_paths(kind, [], refs, build, scratch, "%s-ref" % kind, mutant=mutant, record=False)
+        if problems:
+            return [], refvals, problems
+    else:
+        refs = {}
     parts = _chunks(list(paths), max(1, min(nproc, len(paths) // 12 or 1)))
 
     def one(i):
         return replay_paths(kind, [doubled(p) for p in parts[i]], refs, build, scratch,
-                            "%s-%d" % (kind, i), mutant=mutant, record=record, refvals=refvals,
-                            attrs=sorted(g.status_attrs()))
+                            "%s-%s%d" % (kind, "tw" if twin else "", i), mutant=mutant, record=record,
+                            refvals=refvals, attrs=sorted(g.status_attrs()), twin=twin)
 
     done = {}
     with cf.ThreadPoolExecutor(max_workers=len(parts)) as ex:
@@ -1130,8 +1188,30 @@ def replay_kind(kind, g, paths, build, scratch, nproc, mutant=None, record=True)
                 else:
                     done[tuple(p)] = steps
     out = [(list(p), done[tuple(p)]) for p in paths if tuple(p) in done]      # plan order (shortest paths first)
-    mark_values(g, out)
+    if not twin:
+        mark_values(g, out)
     return out, refvals, problems
+
+
+def mark_twin(plain, twinned):
+    """twinSame flag per step: the replay that followed a twin object in the same process shows the same
+    outcome, bit-identical result (ARPACK results excepted) and derived values as the replay without it"""
+    tw = {tuple(p): steps for p, steps in twinned}
+    n = 0
+    for path, steps in plain:
+        other = tw.get(tuple(path))
+        if other is None:
+            continue
+        n += 1
+        for j, st in enumerate(steps):
+            if j >= len(other):
+                st["twinSame"] = False
+                continue
+            o = other[j]
+            st["twinSame"] = bool(o["out"] == st["out"] and o["etype"] == st["etype"] and o["emsg"] == st["emsg"]
+                                  and (st["m"] in ARPACK or o["h"] == st["h"])
+                                  and o.get("vals") == st.get("vals") and o["args_same"] == st["args_same"])
+    return n
 
 
 def mark_values(g, replays):
@@ -1147,14 +1227,15 @@ def mark_values(g, replays):
             if node is None or st["out"] == "exc" and st["etype"] == "crash":
                 continue
             isdef = set(node[0])
+            st["_defn"] = node[3]
             for ro, nm, dg in st.get("vals", []):
-                if (ro, nm) in isdef and (ro, nm) not in canon:
-                    canon[(ro, nm)] = dg
-                    origin[(ro, nm)] = path[:j // 2 + 1]
+                if (ro, nm) in isdef and (ro, nm, node[3]) not in canon:
+                    canon[(ro, nm, node[3])] = dg
+                    origin[(ro, nm, node[3])] = path[:j // 2 + 1]
     for path, steps in replays:
         for st in steps:
-            st["valflags"] = [[ro, nm, canon.get((ro, nm), dg) == dg] for ro, nm, dg in st.get("vals", [])]
-    g.canon_origin = {"%s.%s" % k if k[0] else k[1]: v for k, v in origin.items()}
+            e = st.get("_defn", ())
+            st["valflags"] = [[ro, nm, canon.get((ro, nm, e), dg) == dg] for ro, nm, dg in st.get("vals", [])]
 
 
 def tlc_cfg(kinds, maxlen, devs="all", invariants=True):
@@ -1305,23 +1386,38 @@ def _run(rep, rng, tier, seed, build, mutant, kinds, maxlen, scratch):
                 rep.machinery("Touches(%s,%s) in Lifecycle.tla is %s but the harness passes %s"
                               % (kind, m, sorted(want), sorted(have)))
         walks = random_walks(g, maxlen, 6 if quick else 200, rng)
+        # every quantity asked directly after every other call on a fresh object (all ordered pairs)
+        pairs = [[a, b] for a in g.methods for b in g.methods]
         seen = set(map(tuple, paths))
-        for p in extra + walks:
+        for p in pairs + extra + walks:
             if tuple(p) not in seen:
                 seen.add(tuple(p))
                 paths.append(p)
+        paths.sort(key=lambda p: (len(p), p))          # shortest first: canonical values come from first calls
         st["paths"] = len(paths)
+        st["pairs"] = len(pairs)
         st["random_walks"] = len(walks)
         stats.append(st)
         plan[kind] = paths
     rep.cov["graph"] = stats
     total_paths = sum(len(p) for p in plan.values())
     nproc_total = 16
-    replays, problems, refvals_of = {}, [], {}
+    replays, problems, refvals_of, twin_count = {}, [], {}, {}
 
     def do_kind(kind):
         share = max(1, int(round(nproc_total * len(plan[kind]) / float(max(1, total_paths)))))
-        return replay_kind(kind, graphs[kind], plan[kind], build, scratch, share, mutant=mutant)
+        res, refvals, pr = replay_kind(kind, graphs[kind], plan[kind], build, scratch, share, mutant=mutant)
+        # twin pass: the same behaviour right after the same behaviour on a twin object (another material) in the
+        # same process; every single call, and every k-th longer path (none that kills the interpreter)
+        k_th = 5 if quick else 3
+        pick = [p for i, (p, steps) in enumerate(res)
+                if (len(p) == 1 or i % k_th == 0) and not any(s["etype"] == "crash" for s in steps)]
+        if pick and not pr:
+            tw, _, pr2 = replay_kind(kind, graphs[kind], pick, build, scratch, max(1, share // 2), mutant=mutant,
+                                     record=False, twin=True, refvals=refvals)
+            pr = pr + pr2
+            twin_count[kind] = mark_twin(res, tw)
+        return res, refvals, pr
 
     with cf.ThreadPoolExecutor(max_workers=len(kinds)) as ex:
         for kind, (res, refvals, pr) in zip(kinds, ex.map(do_kind, kinds)):
@@ -1330,6 +1426,7 @@ def _run(rep, rng, tier, seed, build, mutant, kinds, maxlen, scratch):
             for p in pr:
                 rep.machinery(p)
     mark("replay")
+    rep.cov["twin_replays"] = twin_count
     ever_written = {}
     for kind in kinds:
         w = set()
@@ -1405,7 +1502,11 @@ def _run(rep, rng, tier, seed, build, mutant, kinds, maxlen, scratch):
                        % ("up to 30 per kind, 1 labelling" if quick else "up to 800 per kind, 3 labellings"))
     rep.cov["exhaustive"] = False
     rep.assumptions += [
-        "evaluation calls only; redefinitions between calls are outside the property",
+        "re-definitions between calls are explored on one kind (PlateRedef: constant pre-load; ply thickness + material); "
+        "the reference of a call is then the same call on a fresh object re-defined the same way first",
+        "process-global state: every single call and every %s-th longer path is also replayed right after the same path on "
+        "a twin object of another material in the same process and must give the same outcome, result and derived "
+        "values" % ("5" if quick else "3"),
         "methods a model does not support at all (kpanel: kA, cA, strain, non-linear kernels) are not part of Methods(kind)",
         "'freshly defined object' reference of a call that cannot be first today = the same call after the shortest "
         "call sequence the specification says makes it succeed",
